@@ -1014,7 +1014,7 @@ func main() {
 	}
 	w := NewCaseWriter(o.Out, "cases", hdr, "xmism", 5)
 	w.Type = "xcase"
-	w.Rule = "random HMMs (1-4 states, sequence length 1-6, 1-3 sequences per model, probabilities k/16 with zeros, unnormalised rows, all-zero rows, nil/permuted/non-injective state maps, start/final restrictions incl. -1 and duplicates, emission tables or categorical emissions through vectorDistribution.Hmm, Float64 or Real64 parameters) and mixtures (1-4 components, table or categorical); an HMM case is non-trivial iff it has >= 2 states and a sequence of length >= 3 with positive likelihood, a mixture iff >= 2 non-zero weights; a Baum-Welch case (2-4 records of different lengths on one thread, both record orders, poisoned work memory) is non-trivial iff it has >= 2 states, a longer record directly before a shorter one and the step succeeds; a setter history (1-5 calls of SetStartStates / SetFinalStates / SetParameters / Clone after the constructor, then sequences of every length 1..n, n in 2..4) is non-trivial iff it has >= 2 states, a SetParameters after an accepted SetFinalStates and a sequence of length >= 2 with positive likelihood; round 6: histories also contain ImportConfig(json(ExportConfig())) round trips (incl. the panicking one after SetStartStates({-1})), every sequence of a model built on vectorDistribution.Hmm carries 1-3 vectorClassifier.HmmPosterior / HmmClassifier Eval calls (state lists: subset in any order / all / empty / repeated / out of range; result vector of the right or a wrong length; on the classifier and its clone), mixtures also through vectorDistribution.Mixture with ScalarId components (and its Clone); distinct = distinct input"
+	w.Rule = "random HMMs (1-4 states, sequence length 1-6, 1-3 sequences per model, probabilities k/16 with zeros, unnormalised rows, all-zero rows, nil/permuted/non-injective state maps, start/final restrictions incl. -1 and duplicates, emission tables or categorical emissions through vectorDistribution.Hmm, Float64 or Real64 parameters) and mixtures (1-4 components, table or categorical); an HMM case is non-trivial iff it has >= 2 states and a sequence of length >= 3 with positive likelihood, a mixture iff >= 2 non-zero weights; a Baum-Welch case (2-4 records of different lengths on one thread, both record orders, poisoned work memory) is non-trivial iff it has >= 2 states, a longer record directly before a shorter one and the step succeeds; a setter history (1-5 calls of SetStartStates / SetFinalStates / SetParameters / Clone after the constructor, then sequences of every length 1..n, n in 2..4) is non-trivial iff it has >= 2 states, a SetParameters after an accepted SetFinalStates and a sequence of length >= 2 with positive likelihood; round 6: histories also contain ImportConfig(json(ExportConfig())) round trips (incl. the panicking one after SetStartStates({-1})), every sequence of a model built on vectorDistribution.Hmm carries 1-3 vectorClassifier.HmmPosterior / HmmClassifier Eval calls (state lists: subset in any order / all / empty / repeated / out of range; result vector of the right or a wrong length; on the classifier and its clone), mixtures also through vectorDistribution.Mixture with ScalarId components (and its Clone); round 7: mixtures with 2-4 components whose Posterior / Likelihood are called on every ordering of every component subset (k <= 3) or on the descending and a random order of every subset (k = 4); HMM (fresh work matrices) and Baum-Welch cases (recycled work matrices, both record orders) with an exactly-zero emission density forced at an interior position of every record of length >= 3; distinct = distinct input"
 	corpus, _ := os.ReadFile(o.Extra)
 	if len(corpus) > 0 {
 		for _, line := range strings.Split(string(corpus), "\n") {
@@ -1071,6 +1071,26 @@ func main() {
 	for k := 0; k < o.N*2/5; k++ {
 		r := rng5.Split()
 		c := genHist(r, w)
+		b, _ := json.Marshal(c)
+		emit(c, w, string(b))
+	}
+	// round 7: mixtures over component subsets in every order; zero emission density at interior
+	// positions on fresh (table) and on recycled (bw, both record orders) work matrices
+	rng7 := NewRng(o.Seed*1000003 + 715)
+	for k := 0; k < o.N/5; k++ {
+		r := rng7.Split()
+		var c Case
+		switch k % 3 {
+		case 0:
+			c = genMixSub(r, w)
+		case 1:
+			c = genHmmZero(r, w)
+		default:
+			c = genBWZero(r, w)
+			b, _ := json.Marshal(c)
+			emit(c, w, string(b))
+			c = reversedBW(c)
+		}
 		b, _ := json.Marshal(c)
 		emit(c, w, string(b))
 	}
